@@ -258,6 +258,11 @@ theorem C18_internal_no_edge {m : Machine} {sub : Subject} {g : Graph} (h : getG
     rw [build_edges, build_edges]
     simp only [flatMap_stateEdges_dropInternal]
     rfl
+  | unset =>
+    refine ⟨_, rfl, ?_⟩
+    rw [build_edges, build_edges]
+    simp only [dropInternal, flatMap_stateEdges_dropInternal]
+    rfl
 
 /-! ## Final states -/
 
@@ -277,6 +282,25 @@ theorem pseudo_not_highlighted : initNode.highlighted = false := rfl
 theorem C18_highlight_class {m : Machine} {g : Graph} (h : getGraph m .cls = .ok g) :
     ∀ n ∈ g.nodes, n.highlighted = false := by
   obtain ⟨ini, _, rfl, _⟩ := getGraph_ok h
+  intro n hn
+  rw [build_nodes] at hn
+  rcases List.mem_cons.mp hn with rfl | hn
+  · rfl
+  · rw [List.mem_map] at hn
+    obtain ⟨s, _, rfl⟩ := hn
+    rfl
+
+/-- **Instance whose model holds no state yet (an async machine before its activation): drawn like the class — every
+state, no node highlighted** (D38 repaired). -/
+theorem C18_highlight_unset {m : Machine} {g : Graph} (h : getGraph m .unset = .ok g) :
+    getGraph m .cls = .ok g ∧ ∀ n ∈ g.nodes, n.highlighted = false := by
+  have hc : getGraph m .cls = .ok g := by
+    unfold getGraph at h ⊢
+    split at h
+    · cases h
+    · exact h
+  refine ⟨hc, ?_⟩
+  obtain ⟨ini, _, rfl, _⟩ := getGraph_ok hc
   intro n hn
   rw [build_nodes] at hn
   rcases List.mem_cons.mp hn with rfl | hn
